@@ -110,6 +110,19 @@ public:
     // Calculate TTL from DNS result
     std::uint32_t ttl = calculateResultTtl(result);
 
+    // A zero TTL means "use for the transaction in progress only, do not cache" (RFC 1035
+    // section 3.2.1). ExpiringCache::set() reads a zero TTL as "use the default TTL", which would
+    // keep serving the answer for minutes: drop any older entry for the question instead (the
+    // eviction callback keeps the entry counters right).
+    if (ttl == 0)
+    {
+      if (hadEntry)
+      {
+        cache_->remove(key);
+      }
+      return;
+    }
+
     // Store positive result
     CachedDnsResult cachedResult(result);
     cache_->set(key, cachedResult, std::chrono::seconds(ttl));
@@ -150,6 +163,17 @@ public:
     auto existingEntry = cache_->get(key);
     bool hadEntry = existingEntry.has_value();
     bool hadNegativeEntry = hadEntry && existingEntry->isNegative;
+
+    // A zero negative TTL (SOA MINIMUM or SOA TTL of 0) means the error must not be cached;
+    // ExpiringCache::set() would read it as "use the default TTL" (see put()).
+    if (negativeTtl == 0)
+    {
+      if (hadEntry)
+      {
+        cache_->remove(key);
+      }
+      return;
+    }
 
     // Store negative result
     CachedDnsResult cachedResult(result, errorMessage);
